@@ -180,7 +180,13 @@ FIRST_FOR = {'scalar': ['base64', 'sha256', 'json', 'yaml'], 'map': ['tolist:=',
              'nested': ['json', 'yaml', 'toml', 'yml', 'json-pretty']}
 
 
+BAD_DECODE = ['json:pretty', 'yaml:2', 'xml', '', 'JSON', 5, ['json'], 'json ', 'toml:x', True, {'a': 1}, 'base64', 'join:,', 'yaml:', ':json', 'js', 1.5]
+
+
 def gen_case(rng, i, tier):
+    if rng.random() < 0.02:
+        return {'mode': 'decode-invalid', 'arg': rng.choice(BAD_DECODE), 'text': rng.choice(['{"a": 1}', 'a: 1', 'a = 1', '[1, 2]', 'x', '']),
+                'value': None, 'stack': [], 'spec': None, 'host': 'value', 'want': 'scalar'}
     want = rng.choice(['scalar', 'map', 'map', 'list', 'list', 'lol', 'lom', 'nested'])
     v = value(rng, want, floats=False)
     n = rng.choice([1, 1, 2, 2, 3])
@@ -225,6 +231,8 @@ def fixed_cases(tier):
 
 
 def shrink(case):
+    if case.get('mode') == 'decode-invalid':
+        return
     st = case['stack']
     if len(st) > 1:
         for i in range(len(st)):
@@ -250,8 +258,26 @@ def host_doc(v, spec, host):
     return {'r': {'$value': v, '$encode': spec}}
 
 
+def check_decode_invalid(ctx, case, res):
+    d = {'r': {'$value': case['text'], '$decode': case['arg']}, 'keep': 1}
+    resp = ctx.call([{'op': 'merge_doc', 'id': 'd', 'data': d}, {'op': 'output_docs'}], res)
+    if resp is None:
+        return res.violate('crash', 'worker died', case=case)
+    for r in resp['results']:
+        if r.get('panic'):
+            return res.violate('crash', 'panic: ' + r['panic'][:300], case=case)
+    res.nontrivial = True
+    res.labels.add('mode:decode-invalid')
+    if all(r['err'] is None for r in resp['results']):
+        return res.violate('invalid', 'malformed $decode argument %r accepted' % (case['arg'],), case=case, got=resp['results'][1].get('values'))
+    res.ev('invalid_rejected')
+    return res
+
+
 def check_case(ctx, case):
     res = Result()
+    if case.get('mode') == 'decode-invalid':
+        return check_decode_invalid(ctx, case, res)
     v, stack, host = case['value'], case['stack'], case['host']
     res.labels.add('host:' + host)
     res.labels.add('input:' + case.get('want', '?'))
